@@ -161,13 +161,23 @@ def case(ch):
     if outmode == 2 and (cfg["rows"] < 2 or cfg["cols"] < 2):
         outmode = 1          # decimation (fits_tools.compress) is only defined for shapes >= 2x2
     if outmode:
-        cfg["out_base"] = os.path.join(bw.tmpdir(), "c06out")
+        cfg["out_base"] = bw.fresh_path("c06out", "")
         cfg["compressed"] = outmode == 2
     if outmode == 1 and ch.chance("via_cli", 1, 2):
         cfg["via_cli"] = True          # run through AegeanTools/CLI/BANE.py main(argv); maps read back from its files
     img = bw.make_image(cfg, content)
     vals = _file_values(cfg, img)
-    fn = bw.write_image(os.path.join(bw.tmpdir(), "c06.fits"), cfg, img)
+    fn = bw.write_image(bw.fresh_path("c06"), cfg, img)
+    files = [fn]
+    try:
+        return _case_body(ch, out, cfg, content, hot, line, outmode, img, vals, fn, files)
+    finally:
+        bw.remove_quietly(*files)
+        if outmode:
+            bw.remove_quietly(cfg["out_base"] + "_bkg.fits", cfg["out_base"] + "_rms.fits")
+
+
+def _case_body(ch, out, cfg, content, hot, line, outmode, img, vals, fn, files):
     out.sample = {"config": _cfg_str(cfg), "content": {k: content[k] for k in ("kind", "offset_pow", "sigma_pow", "blank")},
                   "file_output": ("none", "plain", "compressed")[outmode], "via_cli": bool(cfg.get("via_cli")), "relations": []}
 
@@ -251,13 +261,50 @@ def case(ch):
                               sig=None, cfg=_cfg_str(cfg), layout=str(r0.layout))
                 return out
 
+    # ---- history: the same path is rewritten with another image (other shape / BSCALE / NAXIS) and filtered again in
+    #      the same process: "any image" includes an image whose file name has been seen before
+    if ch.chance("rewrite_same_path", 1, 5):
+        cfg2 = dict(cfg)
+        cfg2["rows"] = max(2, cfg["rows"] + (3, -2, 7, 0)[ch.draw("rw_rows", 4)])
+        cfg2["cols"] = max(2, cfg["cols"] + (-1, 2, 0, 5)[ch.draw("rw_cols", 4)])
+        cfg2["bscale"] = (None, 2.0, -2.0, 0.5)[ch.draw("rw_bscale", 4)]
+        cfg2["naxis"] = (2, 3, 4)[ch.draw("rw_naxis", 3)]
+        cfg2["nplanes"] = 2 if cfg2["naxis"] > 2 else 1
+        cfg2["cube_index"] = ch.draw("rw_cube", cfg2["nplanes"])
+        cfg2.pop("via_cli", None)
+        content2 = dict(content, kind=("constant", "noise")[ch.draw("rw_kind", 2)], blank="none")
+        img2 = bw.make_image(cfg2, content2)
+        vals2 = _file_values(cfg2, img2)
+        bw.write_image(fn, cfg2, img2)            # same path as the base image
+        s2 = bw.gen_sched(ch, hot, line)
+        r2 = _run(fn, cfg2, s2, ch, fill="payload")
+        _count(out, r2)
+        out.stats["oracle:rewritten_path"] += 1
+        out.sample["relations"].append({"rewritten_same_path": _cfg_str(cfg2)})
+        if not _completed(out, r2, cfg2, "image written over the path of the first image"):
+            out.violations[-1]["detail"]["sig"] = "rewritten/" + str(out.violations[-1]["detail"]["sig"])
+            return out
+        probs = single_map_problems(cfg2, content2, vals2, r2.bkg, r2.rms)
+        if not probs and content2["kind"] == "constant":
+            c = float(vals2[0, 0])
+            b = r2.bkg.astype(np.float64)
+            if np.nanmax(np.abs(b - c)) > EPS32 * max(1.0, abs(c)):
+                probs = [("constant", "constant image %g: background in [%g, %g]" % (c, np.nanmin(b), np.nanmax(b)))]
+        if probs:
+            out.violation(probs[0][0], "image written over the path of an earlier image (then %s, now %s): %s"
+                          % (_cfg_str(cfg), _cfg_str(cfg2), probs[0][1]), sig="rewritten", cfg=_cfg_str(cfg2), layout=str(r2.layout))
+            return out
+        bw.write_image(fn, cfg, img)              # restore the base image for the relations below
+        out.stats["runs_after_restore"] += 0
+
     # ---- scale by k = +-2^j : exact
     if ch.chance("do_scale", 2, 3):
         j = ch.pick("scale_pow", (1, -1, 3, -3, 0, 5))
         k = (2.0 ** j) * (-1.0 if ch.chance("scale_neg", 1, 2) or j == 0 else 1.0)
         img_k = bw.make_image(cfg, content, scale=k)
         if _exact(cfg, img_k) and _exact(cfg, img):
-            fnk = bw.write_image(os.path.join(bw.tmpdir(), "c06k.fits"), cfg, img_k)
+            fnk = bw.write_image(bw.fresh_path("c06k"), cfg, img_k)
+            files.append(fnk)
             sk = bw.gen_sched(ch, hot, line)
             rk = _run(fnk, cfg_rel, sk, ch, fill="payload")
             _count(out, rk)
@@ -290,7 +337,8 @@ def case(ch):
             if not (_exact(cfg, img_c) and _exact(cfg, img)):
                 out.stats["relation_skipped_inexact"] += 1
                 break
-            fnc = bw.write_image(os.path.join(bw.tmpdir(), "c06c.fits"), cfg, img_c)
+            fnc = bw.write_image(bw.fresh_path("c06c"), cfg, img_c)
+            files.append(fnc)
             sc = bw.gen_sched(ch, hot, line)
             rc = _run(fnc, cfg_rel, sc, ch, fill="payload")
             _count(out, rc)
